@@ -142,6 +142,7 @@ class System(world.World):
         self.notify_log = []            # (height, sorted touched) as passed to _notify_sessions
         self.ever_queryable = set()     # (height, tip hash) the index has been at
         self.calls_log = []             # Notifications call sequence (for C20's binding)
+        self.mp_touched_log = []        # the touched set of every mempool report
         self._wrap_notifications()
 
     def _wrap_notifications(self):
@@ -156,6 +157,7 @@ class System(world.World):
         async def on_mempool(touched, height):
             self.calls_log.append(('mp', height, len(touched), self.db.state.height,
                                    len(self.daemon.best) - 1))
+            self.mp_touched_log.append(frozenset(touched))
             return await orig_mp(touched, height)
         n.on_block, n.on_mempool = on_block, on_mempool
 
